@@ -323,7 +323,8 @@ func TestProp(t *testing.T) {
 			"degenerate and infinite ones, and the canonical empty box) for Extend=lattice join (commutative, associative, idempotent, identity on empty), Overlaps=" +
 			"closed boxes share a point, box-box Intersection=common rectangle or nil, Copy, Empty; plus exhaustive enumeration of box pairs x third boxes over a " +
 			"4-5 value grid. Non-trivial = geometry with an empty member or nesting depth>=2; box pair that touches, is separated on exactly one axis, or " +
-			"involves an empty box. Distinct by case hash.",
+			"involves an empty box. Distinct by case hash." +
+			" Round 9: histories in which a returned box is grown in place (Extend, field writes) before Bounds() is asked of the next empty geometry.",
 		Assumptions: []string{"NaN coordinates are outside the property (min/max of NaN unspecified)", "non-canonical inverted boxes (Max<Min with finite values) are not generated: their lattice meaning is not stated by the property"},
 		Gen:         gen,
 		Run:         run,
